@@ -38,7 +38,7 @@ INFO = {
 }
 EXPECTED_PROBES = ("advance_throttled", "max_reached_while_throttled", "forced_by_max_interval",
                    "frame_shorter_than_previous", "multiline_format", "max_grown_by_overshoot",
-                   "finish_with_max_0", "styled_message", "backward_clock")
+                   "finish_with_max_0", "styled_message", "backward_clock", "terminal_exactly_frame_wide")
 
 _pb = None
 
@@ -63,7 +63,7 @@ FORMATS = [None, None, None, "normal", "verbose", "very_verbose", "debug",
 BAR_CHARS = [None, None, "=", "#", "█"]
 EMPTY_CHARS = ["-", "-", ".", "░"]
 PROGRESS_CHARS = [">", ">", "", "|", "<info>></info>", "<fg=yellow>*</>"]
-SENTINEL = "SENTINEL-%d " + "s" * 70
+SENTINEL = "SENTINEL-%d " + "s" * 25
 
 
 def gen(S, tier):
@@ -88,6 +88,8 @@ def gen(S, tier):
         "sections_above": c.randint(0, 1),
         "sections_below": c.randint(0, 2),
         "skew": c.chance(0.12),
+        # section outputs count screen rows: sometimes the terminal is exactly as wide as the frame
+        "exact_columns": c.chance(0.3),
     }
     f = S("faults")
     lat = []
@@ -236,9 +238,13 @@ def execute(sc):
     old_time = _pb.time
     old_cols = os.environ.get("COLUMNS")
     _pb.time = TimeShim(clock)
-    os.environ["COLUMNS"] = "200"
+    columns = 200
+    if cfg["kind"] == "section" and cfg.get("exact_columns") and cfg["max"] > 0 and cfg["format"] is None \
+            and cfg["verbosity"] == 0 and cfg["bar_width"] is None:
+        columns = 38 + 2 * len(str(cfg["max"]))  # length of the default frame
+    os.environ["COLUMNS"] = str(columns)
     try:
-        _run(sc, cfg, res, clock, log)
+        _run(sc, cfg, res, clock, log, columns)
     except UnknownSequence as e:
         raise HarnessError("terminal emulator: %s" % e)
     finally:
@@ -252,8 +258,9 @@ def execute(sc):
     return res
 
 
-def _run(sc, cfg, res, clock, log):
+def _run(sc, cfg, res, clock, log, columns=200):
     from clikit.api.io.output import Output
+    from ..term import wrap_rows
     from clikit.formatter import AnsiFormatter, PlainFormatter
 
     kind = cfg["kind"]
@@ -261,7 +268,9 @@ def _run(sc, cfg, res, clock, log):
     if kind == "quiet":
         ansi = True
     sentinels = [SENTINEL % i for i in range(cfg["sentinels"])]
-    screen = Screen(200, sentinels)
+    screen = Screen(columns, sentinels)
+    if columns != 200:
+        res.probe("terminal_exactly_frame_wide")
     lat = list(sc["faults"].get("write_latency_us") or [])
     state = {"n": 0}
 
@@ -527,7 +536,8 @@ def _run(sc, cfg, res, clock, log):
                     c = s.content
                     body = c[:-1] if c.endswith("\n") else c
                     if c:
-                        expect.extend(vis(x).rstrip() for x in body.split("\n"))
+                        for x in body.split("\n"):
+                            expect.extend(r.rstrip() for r in wrap_rows(vis(x), columns))
                 while expect and expect[-1] == "":
                     expect.pop()
                 if rows != expect:
